@@ -14,4 +14,6 @@ Separate Extraction
   Frame.udp_make_header Frame.udp_parse_header Frame.udp_send Frame.udp_server_run
   Frame.udp_client_recv Frame.udp_run Frame.udp_step_fixed Frame.udp_zero_buffer Frame.UDP_BUFFER
   Frame.ws_make_header Frame.ws_frame Frame.ws_recv
-  Frame.http_server_recv Frame.http_client_recv Frame.http_server_recv_fixed.
+  Frame.http_server_recv Frame.http_client_recv Frame.http_server_recv_fixed
+  Frame.http_server_recv_limited Frame.http_server_recv_lim Frame.udp_transport Frame.udp_reply
+  Frame.client_index Frame.UDP_INDEX_MASK Frame.SOCK_INDEX_MASK.
